@@ -196,11 +196,21 @@ def misuse(ctx):
                            'len(x)=%d n=%d' % (m, n), lambda xa=xa, n=n: fwa(xa, 0, n), 'fd_weights too few')
         expect_value_error(rep, 'R-MISUSE', 'fornberg.fd_weights', fb.where(repo.func('fornberg', 'fd_weights')),
                            'len(x)=%d n=%d' % (m, n), lambda xa=xa, n=n: fw(xa, 0, n), 'fd_weights too few')
-    for m, mf, n in ((3, 3, 3), (6, 5, 1), (2, 2, 4)):
+    for m, mf, n in ((3, 3, 3), (6, 5, 1), (2, 2, 4), (6, 8, 1), (7, 9, 2)):
         xa = Arr((m,), [Poly.sym('x%d' % k) for k in range(m)])
         fa = Arr((mf,), [Poly.sym('f%d' % k) for k in range(mf)])
-        expect_value_error(rep, 'R-MISUSE', 'fornberg.fd_derivative', fb.where(repo.func('fornberg', 'fd_derivative')),
-                           'len(x)=%d len(fx)=%d n=%d' % (m, mf, n), lambda xa=xa, fa=fa, n=n: fdd(fa, xa, n), 'fd_derivative points')
+        def stub(fn, args, kwargs, node, fr):
+            # the weights themselves do not matter here (and are expensive symbolically): keep them formal
+            if fn is fw and isinstance(args[0], Arr):
+                return (Arr((args[0].size,), [Poly.sym('w%d' % k) for k in range(args[0].size)]),)
+            return None
+        I.on_call = stub
+        try:
+            expect_value_error(rep, 'R-MISUSE', 'fornberg.fd_derivative', fb.where(repo.func('fornberg', 'fd_derivative')),
+                               'len(x)=%d len(fx)=%d n=%d' % (m, mf, n), lambda xa=xa, fa=fa, n=n: fdd(fa, xa, n),
+                               'fd_derivative points')
+        finally:
+            I.on_call = None
     # Residue order <= pole_order
     Res = I.get_global('limits', 'Residue')
     for order, pole in ((1, 1), (2, 2), (1, 3), (2, 3)):
